@@ -12,7 +12,7 @@ PROPERTY = "C30"
 LEVEL = "model_checking"
 META = {
     "text": "Every history up to depth 3 (thorough 4) of Diagnostic() / Diagnostic(add_default_functions=False) creation (<= 2 live instances), register_function of three custom functions, writing an option into the public attribute kwargs of one instance, diagnose_network(instance, net, kwargs) with several keyword sets and the legacy diagnostic(net, ...) wrapper is executed on the real objects with the process-global module defaults of pandapower.diagnostic carried as part of the state; after every transition the module defaults must be untouched, after every diagnosis the diagnosed net must equal its snapshot and the returned result (and per-check error classes) must equal the result of the same call - same registrations and own kwargs attribute of that instance, same kwargs of that call, same net - made in a pristine interpreter state.",
-    "note": "Trusted: the pristine reference (module defaults deep-copied at import and re-installed; cross-checked once per run against a freshly started interpreter), the canonical state (report-only attributes of function objects are left out, argued in mc/l_diag.py). Two small nets with an overload / a disconnected element / a wrong voltage level / an impedance close to zero; result tables are compared because both nets carry their own power-flow results before the first diagnosis. Error messages are compared by exception class only.",
+    "note": "Trusted: the pristine reference (module defaults deep-copied at import and re-installed; cross-checked once per run against a freshly started interpreter), the canonical state (report-only attributes of function objects are left out, argued in mc/l_diag.py). Three small nets (converging, overloaded-but-curable, not curable by any scaling stage) with a disconnected element / a wrong voltage level / an impedance close to zero; result tables are compared because both nets carry their own power-flow results before the first diagnosis. Error messages are compared by exception class only.",
     "technique": "explicit-state breadth-first search over operation histories on the real implementation with a differential (pristine-state) oracle",
     "design_ref": "DESIGN.md §3 E2, §4 C30",
 }
@@ -69,7 +69,7 @@ def explore(tier, seed):
     rep.extra["reference_checked_in_fresh_interpreter"] = len(sub)
     rep.extra["bound_depth"] = p["depth"]
     rep.extra["alphabet"] = {"kwargs": p["kw"], "legacy_kwargs": p["legacy_kw"], "custom_functions": ld.FUNCS,
-                             "max_custom_registrations_per_instance": p["max_regs"], "max_instances": 2, "nets": 2}
+                             "max_custom_registrations_per_instance": p["max_regs"], "max_instances": 2, "nets": ld.NNETS}
     rep.rule = ("E2: every sequence of <= depth operations from {Diagnostic(True), Diagnostic(False), register_function(i, "
                 "echo|need|slack), inst_i.kwargs.update(osf), diagnose_network(i, net j, kw), legacy diagnostic(net j, kw)}; states deduplicated by "
                 "(module defaults, per instance kwargs/functions/aliasing, net content); distinct+non-trivial = distinct "
